@@ -18,6 +18,9 @@ import (
 //   - evaluated as template text inside a string literal, `@("` + s + `")`: the marker stands
 //     unescaped in a literal whatever strconv.Quote would do with it (judged by the statement's rule
 //     for template text, so nothing is assumed about the way a literal is written),
+//   - evaluated as template text that breaks off inside that literal, `@("` + s (family U's oracle: an
+//     `@(` that is never closed is text and passes through - whatever the reader makes of the marker
+//     at the end of the input),
 //   - written as a quoted literal into the six one-literal positions (family ii).
 var markers = []rune{
 	0xFFFD,          // utf8.RuneError: what a decoder returns for bytes that are not UTF-8
@@ -95,6 +98,10 @@ func (r *runner) runMarkers(bodySh, litSh, valSh *shrinker) (capped bool) {
 				r.single(s, litSh)
 				// unescaped inside a string literal: template text again
 				w := `@("` + s + `")`
+				r.body(w, bodySh)
+				r.value(w, valSh)
+				// and in a literal that is never closed: the text breaks off after s
+				w = `@("` + s
 				r.body(w, bodySh)
 				r.value(w, valSh)
 				c.Inc("marker_strings")
